@@ -1,3 +1,275 @@
 package main
 
-func runCheck(repo, prop, tier string, opt Options, verbose bool) int { return 2 }
+import (
+	"encoding/json"
+	"fmt"
+	"os"
+	"path/filepath"
+	"sort"
+	"strconv"
+	"strings"
+	"sync"
+	"time"
+)
+
+// KnownFinding: an obligation that is refuted on the unchanged tree because of a genuine, recorded defect.
+type KnownFinding struct {
+	Property    string `json:"property"`
+	Function    string `json:"function"`
+	Obligation  string `json:"obligation"`
+	Status      string `json:"status"` // "known" or "fixed: <commit>"
+	Description string `json:"description"`
+	Input       string `json:"failing_input,omitempty"`
+}
+
+func loadKnown() []KnownFinding {
+	var k []KnownFinding
+	b, err := os.ReadFile(filepath.Join(verifDir, "known_findings.json"))
+	if err != nil {
+		return nil
+	}
+	if err := json.Unmarshal(b, &k); err != nil {
+		fmt.Fprintln(os.Stderr, "ENGINE-ERROR: known_findings.json:", err)
+		os.Exit(2)
+	}
+	return k
+}
+
+func hasProp(ps []string, p string) bool {
+	for _, q := range ps {
+		if q == p {
+			return true
+		}
+	}
+	return false
+}
+
+// obligationProps: which properties an obligation of a function counts for.
+func obligationProps(con *Contract, name string) []string {
+	if strings.HasPrefix(name, "ensures[") {
+		lab := name[len("ensures[") : len(name)-1]
+		for _, cl := range con.Ensures {
+			if cl.Label == lab && len(cl.Props) > 0 {
+				return cl.Props
+			}
+		}
+	}
+	if strings.HasPrefix(name, "inv-") {
+		if i := strings.Index(name, "["); i >= 0 {
+			lab := name[i+1 : len(name)-1]
+			for _, ls := range con.Loops {
+				for _, cl := range ls.Invariants {
+					if cl.Label == lab && len(cl.Props) > 0 {
+						return cl.Props
+					}
+				}
+			}
+		}
+	}
+	return con.Props
+}
+
+type evidence struct {
+	PropertyID  string                 `json:"property_id"`
+	Tier        string                 `json:"tier"`
+	Seed        int                    `json:"seed"`
+	Level       string                 `json:"level"`
+	Coverage    map[string]interface{} `json:"coverage"`
+	Assumptions []string               `json:"assumptions"`
+	WallS       float64                `json:"wall_s"`
+	Violations  int                    `json:"violations"`
+}
+
+func runCheck(repo, prop, tier string, opt Options, verbose bool) int {
+	t0 := time.Now()
+	seed, _ := strconv.Atoi(os.Getenv("VERIF_SEED"))
+	w, err := loadWorld(repo)
+	if err != nil {
+		// The tree cannot be loaded / contracts cannot be attached: nothing can be discharged.
+		return reportUndecidable(prop, tier, seed, t0, "cannot load the repository with its contracts: "+err.Error())
+	}
+	var keys []string
+	for _, k := range sortedKeys(w.Contracts) {
+		if hasProp(w.Contracts[k].Props, prop) {
+			keys = append(keys, k)
+		}
+	}
+	if len(keys) == 0 {
+		fmt.Printf("ENGINE-ERROR: no function under contract for property %s\n", prop)
+		return 2
+	}
+	results := make([]*FnResult, len(keys))
+	var wg sync.WaitGroup
+	sem := make(chan struct{}, 4)
+	for i, k := range keys {
+		wg.Add(1)
+		sem <- struct{}{}
+		go func(i int, k string) {
+			defer wg.Done()
+			defer func() { <-sem }()
+			results[i] = w.verifyFn(k, opt)
+		}(i, k)
+	}
+	wg.Wait()
+	// lemmas used by these functions are proved as part of the same check
+	lemmaSet := map[string]bool{}
+	for _, k := range sortedKeys(w.Lemmas) {
+		l := w.Lemmas[k]
+		for _, fk := range keys {
+			if w.Contracts[fk].Pkg == l.Fn.Pkg.Name {
+				lemmaSet[k] = true
+			}
+		}
+	}
+	var lemmaKeys []string
+	for k := range lemmaSet {
+		lemmaKeys = append(lemmaKeys, k)
+	}
+	sort.Strings(lemmaKeys)
+	for _, k := range lemmaKeys {
+		results = append(results, w.verifyLemma(k, opt))
+	}
+
+	known := loadKnown()
+	isKnown := func(fn, ob string) *KnownFinding {
+		for i := range known {
+			if known[i].Property == prop && known[i].Function == fn && known[i].Obligation == ob && known[i].Status == "known" {
+				return &known[i]
+			}
+		}
+		return nil
+	}
+	total, discharged, violations := 0, 0, 0
+	var knownRefuted []string
+	var samples []interface{}
+	var fnsUnder []string
+	solverTime := map[string]int64{}
+	var bounded []string
+	os.MkdirAll(filepath.Join(verifDir, "replays", prop), 0o755)
+	violation := func(fn, ob string, o *ObResult, reason string) {
+		violations++
+		path := filepath.Join(verifDir, "replays", prop, sanitize(fn+"_"+ob)+".json")
+		rep := map[string]interface{}{"property": prop, "function": fn, "obligation": ob, "reason": reason}
+		suffix := ""
+		if o != nil {
+			rep["status"] = o.Status
+			rep["solver"] = o.Solver
+			rep["solver_output"] = trimModel(o.Model)
+			rep["site"] = o.Site
+			rep["detail"] = o.Detail
+			rep["smt_script_bytes"] = len(o.Script)
+			sp := strings.TrimSuffix(path, ".json") + ".smt2"
+			os.WriteFile(sp, []byte(o.Script), 0o644)
+			rep["smt_script"] = sp
+			confirmed := false
+			if o.Status == "refuted" {
+				confirmed = tryReplay(w, fn, ob, o, rep)
+			}
+			if !confirmed {
+				suffix = " no-failing-input-found"
+			}
+		} else {
+			suffix = " no-failing-input-found"
+		}
+		b, _ := json.MarshalIndent(rep, "", " ")
+		os.WriteFile(path, b, 0o644)
+		fmt.Printf("VIOLATION property=%s replay=%s%s\n", prop, path, suffix)
+	}
+	for _, r := range results {
+		isLemma := strings.HasPrefix(r.Key, "lemma:")
+		var con *Contract
+		if !isLemma {
+			con = w.Contracts[r.Key]
+		}
+		if r.Err != "" {
+			if r.EngineErr && !r.Vacuous {
+				fmt.Printf("ENGINE-ERROR: %s: %s\n", r.Key, r.Err)
+			}
+			if kf := isKnown(r.Key, "*"); kf != nil {
+				fmt.Printf("KNOWN-FINDING: property=%s %s: %s\n", prop, r.Key, kf.Description)
+				knownRefuted = append(knownRefuted, r.Key+"/*")
+				continue
+			}
+			total++
+			violation(r.Key, "all-obligations", nil, "the obligations of this function could not be generated or discharged: "+r.Err)
+			continue
+		}
+		fnsUnder = append(fnsUnder, r.Key)
+		for _, o := range r.Obs {
+			if con != nil && !hasProp(obligationProps(con, o.Name), prop) {
+				continue
+			}
+			solverTime[o.Solver] += o.TimeMS
+			if kf := isKnown(r.Key, o.Name); kf != nil {
+				if o.Status != "proved" {
+					fmt.Printf("KNOWN-FINDING: property=%s %s/%s: %s\n", prop, r.Key, o.Name, kf.Description)
+					knownRefuted = append(knownRefuted, r.Key+"/"+o.Name)
+					continue
+				}
+			}
+			total++
+			if o.Status == "proved" {
+				discharged++
+				if len(samples) < 6 {
+					samples = append(samples, map[string]interface{}{"function": r.Key, "obligation": o.Name, "instances_paths": o.Instances, "solver": o.Solver, "ms": o.TimeMS})
+				}
+				continue
+			}
+			violation(r.Key, o.Name, o, "obligation "+o.Status+" by the solver")
+		}
+		if verbose {
+			printFnResult(r, false)
+		}
+	}
+	level := propLevel(prop)
+	ev := evidence{PropertyID: prop, Tier: tier, Seed: seed, Level: level, WallS: time.Since(t0).Seconds(), Violations: violations}
+	ev.Coverage = map[string]interface{}{
+		"obligations":              total,
+		"discharged":               discharged,
+		"checker_cmd":              fmt.Sprintf("/verif/bin/xvc check %s --tier %s", prop, tier),
+		"trusted_base":             trustedBase(),
+		"functions_under_contract": fnsUnder,
+		"known_refuted":            knownRefuted,
+		"bounded":                  bounded,
+		"solver_time_ms":           solverTime,
+		"samples":                  samples,
+		"explanation":              propExplanation(prop),
+	}
+	ev.Assumptions = propAssumptions(w, prop, keys)
+	os.MkdirAll(filepath.Join(verifDir, "evidence"), 0o755)
+	b, _ := json.MarshalIndent(ev, "", " ")
+	os.WriteFile(filepath.Join(verifDir, "evidence", prop+".json"), b, 0o644)
+	fmt.Printf("xvc %s: %d/%d obligations discharged over %d functions, %d known findings, %d violations, %.1fs\n", prop, discharged, total, len(fnsUnder), len(knownRefuted), violations, time.Since(t0).Seconds())
+	if violations > 0 {
+		return 1
+	}
+	return 0
+}
+
+func reportUndecidable(prop, tier string, seed int, t0 time.Time, reason string) int {
+	os.MkdirAll(filepath.Join(verifDir, "replays", prop), 0o755)
+	path := filepath.Join(verifDir, "replays", prop, "load.json")
+	b, _ := json.MarshalIndent(map[string]interface{}{"property": prop, "obligation": "all-obligations", "reason": reason}, "", " ")
+	os.WriteFile(path, b, 0o644)
+	fmt.Printf("ENGINE-NOTE: %s\n", reason)
+	fmt.Printf("VIOLATION property=%s replay=%s no-failing-input-found\n", prop, path)
+	ev := evidence{PropertyID: prop, Tier: tier, Seed: seed, Level: propLevel(prop), WallS: time.Since(t0).Seconds(), Violations: 1}
+	ev.Coverage = map[string]interface{}{"obligations": 1, "discharged": 0, "checker_cmd": "/verif/bin/xvc check " + prop, "trusted_base": trustedBase(), "explanation": reason, "evaluations": 1, "distinct_nontrivial": 0}
+	os.MkdirAll(filepath.Join(verifDir, "evidence"), 0o755)
+	eb, _ := json.MarshalIndent(ev, "", " ")
+	os.WriteFile(filepath.Join(verifDir, "evidence", prop+".json"), eb, 0o644)
+	return 1
+}
+
+func trustedBase() []string {
+	return []string{
+		"golang.org/x/tools go/ssa v0.29.0 (NaiveForm) represents the compiled Go source faithfully",
+		"xvc's symbolic semantics of the SSA instruction subset (DESIGN.md appendix D)",
+		"z3 4.8.12 / z3 5.1.0 / cvc5 1.0 answer unsat only for unsatisfiable queries",
+		"Go int treated as a mathematical integer outside bit-vector mode (no overflow modelled)",
+		"slice values have value semantics (backing-array aliasing not modelled)",
+		"trusted contracts for strings.Builder (write history), strings.TrimRight/TrimSpace/Split/Join/Repeat, fmt.Sprintf/Errorf, strconv.ParseInt/ParseFloat, maps.Copy, slices.Contains, append",
+	}
+}
+
+// tryReplay is set up in replay.go
